@@ -445,6 +445,9 @@ func c06Mutated(ctx *core.Ctx, server string, dotu bool, k, n int) core.Result {
 		for j := 0; j < nm; j++ {
 			fi := 1 + r.Intn(len(frames)-1)
 			f := append([]byte{}, frames[fi]...)
+			if len(f) < 8 {
+				continue // already cut to almost nothing by the first mutation
+			}
 			switch r.Intn(6) {
 			case 0: // byte substitution
 				o := r.Intn(len(f))
